@@ -87,7 +87,7 @@ class Prop(BaseProp):
         b = Builder(mrng, p_doc=0.5, max_depth=3, max_items=7, compound_generic=False, allow_dangling=False,
                     kinds=["function", "macro", "option", "set", "add_test", "ct_add_test", "cpp_class", "cpp_class",
                            "generic", "plain", "block", "cpa", "function", "cpa", "nested_defs", "nested_defs", "twin_defs"], p_reuse_params=0.35, p_clone=0.08,
-                    clone_toggle_doc=True, virtual_members=True, p_doc_impl=0.2)
+                    clone_toggle_doc=True, virtual_members=True, p_doc_impl=0.2, p_between=0.3)
         mod = b.module()
         text = render(mod, Layout(mrng, comments=0.05, wild=0.1, case="random"))
         # non-flag settings are the same under defaults and under X; half of the modules use parameter strip patterns
@@ -168,16 +168,29 @@ class Prop(BaseProp):
                     dup_keys.setdefault(key, []).append(it)
             dup_keys = {k: v for k, v in dup_keys.items() if len(v) > 1}
             for key, group in dup_keys.items():
-                if group[0].kind in ("cpp_attr", "cpp_member", "cpp_constructor", "cpp_class"):
-                    res.count("overloaded_member_names_not_compared")
+                def with_doc(nodes):
+                    return sorted(tuple(blk(n)) for n in nodes if any(oracle.LINE_ID.search(l) for l in n.lines))
+                if group[0].kind == "cpp_class":
+                    res.count("repeated_class_names_not_compared")
+                    continue
+                if group[0].kind in ("cpp_attr", "cpp_member", "cpp_constructor"):
+                    # overloads / the same member name in several classes: the entries that carry doc text are the same blocks
+                    # under X as under defaults (wherever a class of the group is hidden as a whole, nothing is said)
+                    classes = [c_ for _, k_, c_ in items if k_ == key]
+                    if any(class_hidden(c_) or c_ is None for c_ in classes):
+                        res.count("overloaded_member_groups_with_hidden_class_skipped")
+                        continue
+                    res.count("overloaded_member_groups_checked")
+                    dd, xx = with_doc(D.all.get(key, [])), with_doc(Xe.all.get(key, []))
+                    if dd != xx:
+                        viol(f"documented-member-changed:overloaded:{group[0].kind}", f"{key}: {len(dd)} documented blocks under "
+                             f"defaults, {len(xx)} under X (or their text/options differ)",
+                             any(c_.doc is not None for c_ in classes))
                     continue
                 # the same name is defined/declared several times (documented and undocumented variants): the entries that
                 # carry doc text must be the same blocks under X as under defaults; with the kind's flag off no entry
                 # without doc text may remain
                 res.count("repeated_name_groups_checked")
-
-                def with_doc(nodes):
-                    return sorted(tuple(blk(n)) for n in nodes if any(oracle.LINE_ID.search(l) for l in n.lines))
                 dd, xx = with_doc(D.all.get(key, [])), with_doc(Xe.all.get(key, []))
                 if dd != xx:
                     viol(f"documented-entry-changed-or-missing:repeated-name:{group[0].kind}", f"{key}: {len(dd)} documented blocks "
